@@ -15,7 +15,7 @@ def _work(args):
     ctx.search_only = search_only
     for case in chunk:
         try:
-            mod.run_case(ctx, case)
+            _dispatch(mod, prop, ctx, case)
         except Exception as e:  # harness crash on a case: never a violation by itself
             ctx.count("harness_exception:" + type(e).__name__)
             if len(ctx.notes) < 5:
@@ -26,6 +26,28 @@ def _work(args):
             "oracle_fail": ctx.oracle_fail, "corr_fail": ctx.corr_fail, "spec_fail": ctx.spec_fail,
             "known_hits": {k: [v[0], v[1]] for k, v in ctx.known_hits.items()}, "notes": ctx.notes,
             "driver_lines": ctx.driver.lines if ctx.driver is not None else 0}
+
+
+def _dispatch(mod, prop, ctx, case):
+    """sequence / statefulness cases (props/_stateful.py) are generic; everything else belongs to the property's own module"""
+    if isinstance(case, dict) and case.get("kind") == "stateful":
+        from props import _stateful
+        return _stateful.run(prop, ctx, case)
+    return mod.run_case(ctx, case)
+
+
+def _stateful_rule(prop):
+    from props import _stateful
+    if prop not in _stateful.RUN:
+        return ""
+    return ("  PLUS sequence cases (harness/props/_stateful.py, histogram key 'stateful'): short histories on the same Python objects — "
+            "re-query after in-place edits, caller-owned argument objects reused, results held across later calls; oracles: dense arrays "
+            "and fresh-copy equivalence (sampling of the implementation only, no model side)")
+
+
+def _all_cases(mod, prop, rng, tier):
+    from props import _stateful
+    return list(mod.cases(rng, tier)) + _stateful.cases(prop, rng, tier)
 
 
 def run_cases(prop, tier, seed, cases, use_model, search_only=False, workers=None):
@@ -84,7 +106,7 @@ def main():
     corpus = []
     for f in sorted(glob.glob(os.path.join(VERIF, "corpus", prop, "*.json"))):
         corpus.append(json.load(open(f)))
-    cases = corpus + list(mod.cases(rng, tier))
+    cases = corpus + _all_cases(mod, prop, rng, tier)
     use_model = bool(lean.get("driver_ok"))
     res = run_cases(prop, tier, seed, cases, use_model)
 
@@ -104,7 +126,7 @@ def main():
     if broken and not res["oracle_fail"]:
         # a proof obligation or the correspondence no longer checks: look harder for a failing input on the real code
         srng = random.Random((seed, prop, "search").__repr__())
-        extra = list(mod.cases(srng, "search"))
+        extra = _all_cases(mod, prop, srng, "search")
         sres = run_cases(prop, tier, seed, extra, False, search_only=True)
         searched = sres["evaluations"]
         res["oracle_fail"] += sres["oracle_fail"]
@@ -139,7 +161,7 @@ def main():
             "lean_failures": lean["failures"], "lean_build_s": lean.get("build_s"),
             "leanchecker": lean.get("leanchecker"),
             "evaluations": res["evaluations"], "distinct_nontrivial": len(res["sigs"]),
-            "rule": getattr(mod, "RULE", ""), "samples": res["samples"] or [{"note": "no case ran"}],
+            "rule": getattr(mod, "RULE", "") + _stateful_rule(prop), "samples": res["samples"] or [{"note": "no case ran"}],
             "histogram": dict(sorted(res["hist"].items())),
             "model_driver_lines": res["driver_lines"],
             "correspondence_disagreements": len(res["corr_fail"]), "model_vs_spec_disagreements": len(res["spec_fail"]),
@@ -170,7 +192,7 @@ def replay(prop, path):
     ctx = core.Ctx(prop, "replay", 0)
     ctx.use_model = os.path.exists(core.DRIVER); ctx.search_only = False
     ctx.known = []
-    mod.run_case(ctx, case)
+    _dispatch(mod, prop, ctx, case)
     for k in ("oracle_fail", "corr_fail", "spec_fail"):
         for f in getattr(ctx, k):
             print(k, ":", f["what"])
